@@ -19,7 +19,7 @@ from vf import gen, prog, sem, oracles, mosek_env
 from vf.checks import c11
 
 PROP = "C14"
-CASES = {"quick": 800, "thorough": 12000}
+CASES = {"quick": 800, "thorough": 50000}
 RULE = ("models of vf/gen.py (2-3 steps, extras) and low-eigenvalue models (inexact directions of tiny norm) x {trace, "
         "logdet0..3} x tol in {1e-6..1e-1} x eig_regularization in {1e-6..1e-1} x {cvxpy, mosek stand-in} x {primal, dual}."
         " Non-trivial = plain optimum is finite with Gram rank >= 2; distinct by case JSON.")
